@@ -4,7 +4,7 @@
    Follows /repo (not the RFC):
      session.go                      Session{ID, Secret}; SessionStore Get/Set/Del
      config.go newHandshakeConfig    GetSession/SetSession/DelSession wrappers
-     conn.go sessionKey              client key = rAddr + "_" + ServerName, server key = session id
+     conn.go sessionKey              client key = sessionAddr (dial address) + "_" + ServerName, server key = session id
      conn.go notify                  fatal alert and len(state.SessionID) > 0 -> DelSession(sessionKey())
      flight1handler.go               client: GetSession(sessionKey()); id != nil -> offer (id, secret)
      flight0handler.go handleHelloResume  server: len(id) > 0 and GetSession(id) has id != nil -> Flight4b
@@ -70,7 +70,9 @@ Inductive fault :=
 | FCVerify.  (* client's VerifyConnection callback fails: alert 42 in flight5Generate (not called when resuming) *)
 
 Record params := mkParams {
-  p_ckey : bid;            (* client store key of this connection: remote address + "_" + server name *)
+  p_ckey : bid;            (* client store key of this connection: the address the connection was CREATED for
+                              (conn.go sessionAddr, not the live rAddr that return routability may move) + "_" +
+                              server name - one value for the whole connection, used by Get, Set and Del *)
   p_cstore : bool;         (* client configured with a session store *)
   p_sstore : bool;         (* server configured with a session store *)
   p_rc : N;                (* ClientHello.random of this connection *)
